@@ -788,7 +788,7 @@ func init() {
 		Assumptions: []string{
 			"one-bit status vectors: 0 = not received, 1 = received with small delta (libwebrtc meaning)",
 			"sequence numbers are unwrapped by the half-range rule of C20 relative to the previous record; the exact 2^15 tie is not generated",
-			"500 ms history: per number the first arrival is held and duplicates of a held number are ignored; an arrival may leave at any record whose arrival time is at least 500 ms later (or when the number is 2^15 or more behind the newest), never earlier; when it actually leaves is left free (DESIGN.md section 5, refined: an ignored duplicate never enters the history; outcomes ending in +ignored-duplicate count the cases where this matters)",
+			"500 ms history: per number the first arrival is held and duplicates of a held number are ignored; an arrival may leave at any record of a higher number whose arrival time is at least 500 ms later (or when the number is 2^15 or more behind the newest), never earlier and never because of a late or duplicate packet below it; when it actually leaves is left free (DESIGN.md section 5, refined: an ignored duplicate never enters the history; outcomes ending in +ignored-duplicate count the cases where this matters)",
 			"a later duplicate of a number that an earlier feedback already marked received need not be reported again; numbers 2^15 or more behind the newest need not be reported",
 			"absolute arrival times are non-negative",
 			"vsched channel/timer model (litmus suite) for the interceptor part",
